@@ -111,6 +111,9 @@ CheckDir(r) ==
   ELSE IF Len(got) # Len(want) THEN Flag("MISMATCH", r.case, <<"a directory argument gives", Len(got), "rows; its files hold", Len(want)>>)
   ELSE IF \E k \in 1..Len(got) : Cardinality({i \in 1..Len(got) : got[i] = got[k]}) # Cardinality({i \in 1..Len(want) : want[i] = got[k]})
        THEN Flag("MISMATCH", r.case, "the rows of a directory argument are not the rows of its files")
+  \* &index numbers the values of the whole run, whatever file of whatever directory they came from: 0 .. n-1, each once, in the order of the rows
+  ELSE IF r.idxres # "ok" \/ Len(r.idx) # Len(want) \/ \E k \in 1..Len(r.idx) : r.idx[k] # k - 1
+       THEN Flag("MISMATCH", r.case, "&index does not count the values of a directory argument 0, 1, 2, ...")
   ELSE TRUE
 \* ---- C18
 CheckInvalid(r) == IF r.res \notin {"err", "cli"} THEN Flag("MISMATCH", r.case, <<"an invalid configuration was not rejected: result", r.res>>)
